@@ -196,17 +196,23 @@ def oracle_conform(cls, restored, pw, idA, idB, x):
                         nm, cls, p_, xx, msg.hex()[:40], want.hex()[:40]))
                 if restored:
                     a = K[cls].from_serialized(a.serialize(), params=params)
-                yy = (xx + 3) % q
-                inbound = R.spake2_message(rg, pc, p_, yy)
-                wantk = R.spake2_key(rg, cls, p_, ia, ib, xx, inbound)
-                o = C.finish_outcome(a, inbound)
-                if wantk is None or inbound[1:] == msg[1:]:
-                    if o[0] == "key":
-                        return (True, "finish() returned a key for a refused element on %s" % nm)
-                    continue
-                if o[0] != "key" or o[1] != wantk:
-                    return (True, "finish() key differs from the published definition on %s class %s pw=%r idA=%r idB=%r x=%d (%s)" % (
-                        nm, cls, p_, ia, ib, xx, o[1] if o[0] == "exc" else o[1].hex()[:16]))
+                for yy in ((xx + 3) % q, 0, 1, q - 1):
+                    inst = a
+                    if yy != (xx + 3) % q:
+                        inst = mk(cls, xx)
+                        inst.start()
+                        if restored:
+                            inst = K[cls].from_serialized(inst.serialize(), params=params)
+                    inbound = R.spake2_message(rg, pc, p_, yy)
+                    wantk = R.spake2_key(rg, cls, p_, ia, ib, xx, inbound)
+                    o = C.finish_outcome(inst, inbound)
+                    if wantk is None or inbound[1:] == msg[1:]:
+                        if o[0] == "key":
+                            return (True, "finish() returned a key for a refused element on %s" % nm)
+                        continue
+                    if o[0] != "key" or o[1] != wantk:
+                        return (True, "finish() key differs from the published definition on %s class %s pw=%r idA=%r idB=%r x=%d peer scalar %d (%s)" % (
+                            nm, cls, p_, ia, ib, xx, yy, o[1] if o[0] == "exc" else o[1].hex()[:16]))
     from checks import matrix
     r = matrix.session_matrix()
     if r:
